@@ -50,17 +50,30 @@ def byte_index(tr, body, operand, depth=0):
     return None
 
 
-def is_len_lt(tr, body, operand):
-    """n if operand is `len(bytes) < n` (bytes = param 1)."""
+def len_test(tr, body, operand):
+    """(M, true_means_short) if operand is a comparison of len(bytes) (bytes = param 1) with a constant,
+    normalised so that the operand is true iff `len < M` (true_means_short) or iff `len >= M`."""
     v = tr.value(operand)
-    if v.kind == "rv" and v.rv["r"] == "bin" and v.rv["op"] == "Lt":
-        a = tr.value(v.rv["a"])
-        n = tr.const_int(v.rv["b"])
-        if a.kind == "call" and callee(a.term) == "core::slice::<impl [T]>::len" and n is not None:
+    if not (v.kind == "rv" and v.rv["r"] == "bin" and v.rv["op"] in ("Lt", "Le", "Gt", "Ge")):
+        return None
+
+    def is_len(o):
+        a = tr.value(o)
+        if a.kind == "call" and callee(a.term) == "core::slice::<impl [T]>::len":
             s = tr.value(a.term["args"][0])
-            if s.kind == "ref" and s.place.strip_deref() == NPlace(1, []):
-                return n
-    return None
+            return s.kind == "ref" and s.place.strip_deref() == NPlace(1, [])
+        return False
+    op = v.rv["op"]
+    if is_len(v.rv["a"]):
+        n = tr.const_int(v.rv["b"])
+    elif is_len(v.rv["b"]):
+        n = tr.const_int(v.rv["a"])
+        op = {"Lt": "Gt", "Le": "Ge", "Gt": "Lt", "Ge": "Le"}[op]      # n OP len  ==  len OP' n
+    else:
+        return None
+    if n is None:
+        return None
+    return {"Lt": (n, True), "Le": (n + 1, True), "Ge": (n, False), "Gt": (n + 1, False)}[op]
 
 
 class Box:
@@ -121,16 +134,18 @@ def enumerate_leaves(body, tr):
         if k == "unreachable":
             return
         if k == "switch":
-            n = is_len_lt(tr, body, t["d"])
-            if n is not None and n == 2:
+            lt = len_test(tr, body, t["d"])
+            if lt is not None and lt[0] == 2:
+                true_means_short = lt[1]
                 for v, tb in t["targets"]:
                     b2 = box.copy()
-                    b2.short = (v != 0)
+                    cond = (v != 0)
+                    b2.short = cond if true_means_short else not cond
                     if box.short is None or box.short == b2.short:
                         go(tb, b2, evs, depth + 1)
                 b2 = box.copy()
-                b2.short = True
-                if box.short is None or box.short:
+                b2.short = True if true_means_short else False
+                if box.short is None or box.short == b2.short:
                     go(t["else"], b2, evs, depth + 1)
                 return
             i = byte_index(tr, body, t["d"])
